@@ -19,9 +19,23 @@ def run(ctx: Ctx) -> None:
                 "(each is a distinct (type, value) pair)")
     ctx.assumptions = ["spec/PyAxioms.tla (CPython facts incl. DumpTok/CtorTok on primary representatives)",
                        "the value universe excludes NaN (x == x fails) and values that are instances of a subclass of the declared class",
-                       "model round trips (name_mapping layouts, model kinds) are covered by the C03/C17 checks"]
+                       "model round trips: the Layout.tla programs (LoaderDumperAgree / OmitDefaultRoundTrip on the model; load(dump(x)) on the "
+                       "real library for every dump object incl. falsy non-default values, defaults written as values / None / factories)"]
     sweep = run_dump_sweep(ctx)
     report_dump(ctx, sweep, "C01")
+    # models: name_mapping layouts (dataclass) and the other model kinds
+    from ..kinds import KINDS
+    from ..layoutreplay import report as report_layout, run_slices
+    quick = ctx.tier == "quick"
+    total = run_slices(ctx, ["A", "E"] if quick else ["A", "B", "C", "D", "E", "F"], {"F": 2}, twins=False)
+    report_layout(ctx, total, "C01")
+    from .. import layoutreplay
+    layoutreplay.TYPE_PRED_ALLOWED["on"] = False      # Required[int] is not selected by the predicate `int`: known finding of C17
+    for kind_tla in ("dataclass", "typeddict", "sqlalchemy"):
+        kinds = [k.name for k in KINDS if k.tla == ("total" if kind_tla == "dataclass" else kind_tla) and k.name != "dataclass"]
+        total = run_slices(ctx, ["E"] if quick else ["A", "B", "C", "D", "E", "F"], {"F": 1}, twins=False, kind_tla=kind_tla, kinds=kinds,
+                           every=2 if quick else 1)
+        report_layout(ctx, total, "C01")
     ctx.exhaustive = True
 
 
